@@ -230,6 +230,19 @@ class ZFn:
                 key = ("LEN", 1, e[2])
                 if key in V:
                     return {V[key]} if name == "len" else {V[key] == "Z"}
+        if name in ("unwrap", "expect", "unwrap_unchecked") and t["args"] and t["args"][0]["k"] in ("copy", "move") and not t["args"][0]["p"]["proj"] and field is None:
+            # the payload of an Option produced by checked arithmetic
+            d0 = s.single(t["args"][0]["p"]["local"])
+            if d0 and d0[0] == "call":
+                pv = s.val_payload(d0[1], V, 1)
+                if pv is not None: return pv
+        if name == "is_empty" and (fn.get("krate") not in ("core", "alloc", "std")) and len(t["args"]) == 1 and t["args"][0]["k"] in ("copy", "move"):
+            # the crate's own is_empty(): num_cols() == 0 || num_rows() == 0
+            base = t["args"][0]["p"]; tgt = s.ref_target(base["local"]) if not base["proj"] else None
+            root = (tgt["local"] if tgt and (not tgt["proj"] or all(e["k"] == "deref" for e in tgt["proj"])) else base["local"])
+            kc, kr = ("G", root, "num_cols"), ("G", root, "num_rows")
+            if kc in V and kr in V:
+                return {V[kc] == "Z" or V[kr] == "Z"}
         if name in ("num_rows", "num_cols") and len(t["args"]) == 1 and t["args"][0]["k"] in ("copy", "move"):
             base = t["args"][0]["p"]; tgt = s.ref_target(base["local"]) if not base["proj"] else None
             root = (tgt["local"] if tgt and (not tgt["proj"] or all(e["k"] == "deref" for e in tgt["proj"])) else base["local"])     # `&*self` is self
@@ -237,7 +250,7 @@ class ZFn:
             if key in V: return {V[key]}
         return {"Z", "NZ", True, False}
     # ---------- analysis
-    def run(s, tracked, entry_pairs, sinks, entry_imps=()):
+    def run(s, tracked, entry_pairs, sinks, entry_imps=(), entry_nz=()):
         """tracked: list of keys; entry_pairs: list of (rows_key, cols_key) constrained by the invariant at entry;
         sinks: callback(block, stmt_index|'term', valuations) -> None"""
         b = s.b
@@ -245,7 +258,7 @@ class ZFn:
         init = []
         for combo in itertools.product(("Z", "NZ"), repeat=len(keys)):
             V = dict(zip(keys, combo))
-            if all((V[r] == "Z") == (V[c] == "Z") for r, c in entry_pairs) and all(V[a_] == "Z" or V[b_] == "NZ" for a_, b_ in entry_imps): init.append(tuple(combo))
+            if all((V[r] == "Z") == (V[c] == "Z") for r, c in entry_pairs) and all(V[a_] == "Z" or V[b_] == "NZ" for a_, b_ in entry_imps) and all(V[k_] == "NZ" for k_ in entry_nz if k_ in V): init.append(tuple(combo))
         IN = [set() for _ in b["blocks"]]; IN[0] = set(init); work = [0]
         def assign(V, key, vals):
             out = []
@@ -748,7 +761,18 @@ def r_nonzero(f):
     {v == 0} predicate abstraction: every tracked value starts unconstrained, branch edges refine it."""
     R = Result("R-NONZERO")
     n = 0
-    for b in f.fn_bodies:
+    # phase 1: a private free helper whose divisor / chunk size comes from its own parameters hands the obligation to its call
+    # sites: `reqs[id]` = the parameters that must be non-zero there (found by re-running the helper with them forced non-zero)
+    reqs = {}
+    order = [b for b in f.fn_bodies if b.kind == "Fn" and not b.impl_self and not b.trait_provided and "Public" not in str(b.d.get("vis"))] + [None]
+    phase2 = False
+    for b in order + [x for x in f.fn_bodies]:
+        if b is None:
+            phase2 = True
+            continue
+        is_helper = b.kind == "Fn" and not b.impl_self and not b.trait_provided and "Public" not in str(b.d.get("vis"))
+        if phase2 and is_helper and b.id in reqs:
+            continue        # its sites are discharged at the call sites
         fl = b.file.replace("\\", "/")
         if "/tests" in fl or fl.endswith("tests.rs") or b.d.get("derived"):
             continue
@@ -756,6 +780,16 @@ def r_nonzero(f):
             continue      # decided by R-CURSOR under the cursor invariant, division by zero included (a non-empty slice has cols > 0)
         bd = b.d
         sites = []      # (block, index|'term', operand, what, span)
+        if phase2:
+            for bi, bl in enumerate(bd["blocks"]):
+                t = bl["term"]
+                if bl["cleanup"] or not t or t["k"] != "call" or not t["func"].get("fn"):
+                    continue
+                hb = f.crate_fn_for_call(t["func"]["fn"])
+                if hb is not None and hb.id in reqs:
+                    for pi in reqs[hb.id]:
+                        if pi - 1 < len(t["args"]):
+                            sites.append((bi, "term", t["args"][pi - 1], "argument `%s` of %s()" % (hb.param_names().get(pi, "#%d" % pi), hb.name), t["span"]))
         for bi, bl in enumerate(bd["blocks"]):
             if bl["cleanup"]:
                 continue
@@ -821,6 +855,11 @@ def r_nonzero(f):
         # a method on an array / view starts from the receiver's invariant: rows == 0 <=> cols == 0, and a view's stride is at
         # least its width, so it is non-zero whenever the view is non-empty
         pairs, imps = [], []
+        # dimensions read through the receiver's getters obey the zero rule as well (generic `Self: TooDeeOps` code)
+        getters = {fn_["name"] for bl in bd["blocks"] for fn_ in [((bl["term"] or {}).get("func") or {}).get("fn") or {}] if (bl["term"] or {}).get("k") == "call" and fn_.get("name") in ("num_rows", "num_cols", "is_empty") and fn_.get("krate") not in ("core", "alloc", "std")}
+        if getters and bd["arg_count"] >= 1:
+            gk_c, gk_r = ("G", 1, "num_cols"), ("G", 1, "num_rows")
+            add(gk_c); add(gk_r); pairs.append((gk_r, gk_c))
         if b.self_head in ("Rows", "RowsMut") and bd["arg_count"] >= 1:
             # cursor invariant: the remaining slice is whole rows of `cols` cells, so a non-empty slice means cols > 0; usable
             # only while the function never replaces the slice
@@ -861,6 +900,22 @@ def r_nonzero(f):
             Z.run(tracked, pairs, sinks, imps)
         except RecursionError:
             R.inconc(b.ident, "recursion limit")
+            continue
+        if not phase2:
+            # which parameters, forced non-zero, make every site safe?
+            if any(e["zero"] for e in found.values()):
+                pks = [("L", i) for i in range(1, bd["arg_count"] + 1) if bd["locals"][i] == "usize"]
+                for cand in [[k] for k in pks] + ([pks] if len(pks) > 1 else []):
+                    found.clear()
+                    for k in cand:
+                        add(k)
+                    try:
+                        Z.run(tracked, pairs, sinks, imps, entry_nz=cand)
+                    except RecursionError:
+                        break
+                    if found and not any(e["zero"] for e in found.values()):
+                        reqs[b.id] = [k[1] for k in cand]
+                        break
             continue
         ords = {}
         for key in sorted(found, key=lambda k: (k[0], k[1], k[2])):
